@@ -5,7 +5,7 @@ DIR=${1:-/repo}
 TD=${2:-$DIR/target}
 cd "$DIR" || exit 2
 rm -f "$TD"/nextest/pb/junit.xml "$DIR"/target/nextest/pb/junit.xml
-CARGO_TARGET_DIR="$TD" cargo nextest run --workspace --no-fail-fast --tool-config-file pb:/w/lib/nextest.toml --profile pb --test-threads 8 --offline > "$TD/../baseline_run.log" 2>&1
+CARGO_PROFILE_DEV_DEBUG=0 CARGO_PROFILE_TEST_DEBUG=0 CARGO_INCREMENTAL=0 CARGO_TARGET_DIR="$TD" cargo nextest run --workspace --no-fail-fast --tool-config-file pb:/w/lib/nextest.toml --profile pb --test-threads 8 --offline > "$DIR/../baseline_run_$(basename $DIR).log" 2>&1
 python3 - "$TD" "$DIR" <<'PY'
 import json,sys,glob,xml.etree.ElementTree as ET
 td=sys.argv[1]
